@@ -40,3 +40,79 @@ func init() {
 	mk("math/bits.Len32", 32)
 	mk("math/bits.Len", 64)
 }
+
+// math/bits.Mul64 / Div64 (128-bit products and quotients): the real code is 32-bit limb arithmetic, which gives
+// non-linear bit-vector terms no solver finishes. Here they are their defining equations over the mathematical
+// integers; Div64 keeps its two run-time panics (division by zero, quotient overflow).
+func init() {
+	two64 := new(big.Int).Lsh(big.NewInt(1), 64)
+	Register("math/bits.Mul64", func(it *Interp, fn *ssa.Function, a []Value) Value {
+		c := it.C
+		p := c.Mul(bvToIntDeep(c, a[0].(*smt.Term)), bvToIntDeep(c, a[1].(*smt.Term)))
+		hiI, loI := c.Div(p, c.IntConst(two64)), c.Mod(p, c.IntConst(two64))
+		if c.RangeHint == nil {
+			c.RangeHint = map[*smt.Term]bool{}
+		}
+		c.RangeHint[hiI], c.RangeHint[loI] = true, true // both lie in [0, 2^64): p < 2^128
+		hi := c.Int2BV(hiI, 64)
+		lo := c.Int2BV(loI, 64)
+		// remember the product: Div64(hi, lo, y) of exactly this pair divides p itself (p < 2^128)
+		m, _ := it.M.extra["bits.mul64"].(map[[2]*smt.Term]*smt.Term)
+		if m == nil {
+			m = map[[2]*smt.Term]*smt.Term{}
+			it.M.extra["bits.mul64"] = m
+		}
+		m[[2]*smt.Term{hi, lo}] = p
+		return TupleV{hi, lo}
+	})
+	Register("math/bits.Div64", func(it *Interp, fn *ssa.Function, a []Value) Value {
+		c := it.C
+		hi, lo, y := a[0].(*smt.Term), a[1].(*smt.Term), a[2].(*smt.Term)
+		if it.Branch(c.Eq(y, c.BVU(0, 64))) {
+			it.goPanicStr("divide", "runtime error: integer divide by zero")
+		}
+		if it.Branch(c.BVUle(y, hi)) {
+			it.goPanicStr("overflow", "runtime error: integer overflow")
+		}
+		n := c.Add(c.Mul(c.BV2Int(hi), c.IntConst(two64)), c.BV2Int(lo))
+		if m, ok := it.M.extra["bits.mul64"].(map[[2]*smt.Term]*smt.Term); ok {
+			if p, ok := m[[2]*smt.Term{hi, lo}]; ok {
+				n = p
+			}
+		}
+		yi := bvToIntDeep(c, y)
+		q, r := c.Div(n, yi), c.Mod(n, yi)
+		// arithmetic facts of this branch (hi < y): the quotient fits in 64 bits, the remainder is below y
+		it.addPC(c.And(c.Le(c.IntI(0), q), c.Lt(q, c.IntConst(two64))))
+		it.addPC(c.And(c.Le(c.IntI(0), r), c.Lt(r, yi)))
+		if c.RangeHint == nil {
+			c.RangeHint = map[*smt.Term]bool{}
+		}
+		c.RangeHint[q], c.RangeHint[r] = true, true
+		return TupleV{c.Int2BV(q, 64), c.Int2BV(r, 64)}
+	})
+}
+
+// bvToIntDeep is BV2Int with the conversion pushed through subtraction, addition and if-then-else, so that only
+// variables are converted (solvers relate bv2nat of a variable to the Int theory much better than bv2nat of a
+// difference): bv2int(a-b) = A-B if b <= a else A-B+2^w; bv2int(a+b) = A+B if no carry else A+B-2^w.
+func bvToIntDeep(c *smt.Ctx, t *smt.Term) *smt.Term {
+	if t.IsConst() || t.Sort.K != smt.KBV {
+		return c.BV2Int(t)
+	}
+	w := t.Sort.W
+	mod := c.IntConst(new(big.Int).Lsh(big.NewInt(1), uint(w)))
+	switch t.Op {
+	case smt.OBVSub:
+		a, b := t.Args[0], t.Args[1]
+		d := c.Sub(bvToIntDeep(c, a), bvToIntDeep(c, b))
+		return c.Ite(c.BVUle(b, a), d, c.Add(d, mod))
+	case smt.OBVAdd:
+		a, b := t.Args[0], t.Args[1]
+		s := c.Add(bvToIntDeep(c, a), bvToIntDeep(c, b))
+		return c.Ite(c.Lt(s, mod), s, c.Sub(s, mod))
+	case smt.OIte:
+		return c.Ite(t.Args[0], bvToIntDeep(c, t.Args[1]), bvToIntDeep(c, t.Args[2]))
+	}
+	return c.BV2Int(t)
+}
